@@ -162,6 +162,17 @@ theorem cpp_step_methods_collide_iff (a b : List Nat) :
 theorem cpp_step_methods_collide_witness :
     (cppWriterMethods (str "foo") false)[1]? = (cppWriterMethods (str "fooImpl") false)[0]? := by decide
 
+/-- **end to end**: whatever the reserved tables are, the fields and computed fields of a record (the steps of a protocol) that the
+    validator accepts — `membersOk`: each name matches `^[a-z][a-zA-Z0-9]{0,63}$`, none repeats, no two have the same snake_case form —
+    get pairwise distinct member identifiers in Python, in MATLAB and in C++ -/
+theorem accepted_members_get_distinct_identifiers (Rpy Rmat Rcpp : List (List Nat)) (names : List (List Nat))
+    (h : membersOk names [] [] = true) :
+    (names.map fun n => ident Rpy [us] (snake n)).Nodup ∧ (names.map fun n => ident Rmat [us] (snake n)).Nodup ∧
+    (names.map fun n => identRec Rcpp (str "_field") (snake n)).Nodup :=
+  Yardl.Case.accepted_members_get_distinct_identifiers Rpy Rmat Rcpp names h
+
+example : membersOk [str "class", str "classField", str "fooBar", str "x1"] [] [] = true ∧ membersOk [str "fooBar", str "fooBAR"] [] [] = false := by decide
+
 /-- the hypotheses of the theorems above are met by ordinary names -/
 example : alnum (str "classField") ∧ str "classField" ≠ [] ∧ (∃ c r, str "classField" = c :: r ∧ isLo c = true) := by
   refine ⟨by unfold alnum; decide, by decide, ⟨99, str "lassField", by decide, by decide⟩⟩
